@@ -56,10 +56,25 @@ func (x *Xlat) freshTyped(st *State, base string, t types.Type) *Term {
 }
 
 // regionAxiom returns the well-formedness fact for a region value.
-func regionAxiom(key string, v *Term) *Term {
+// regionAxiom: well-formedness of a region value. alloc / arrAlloc are the allocation sets at the same program
+// point (Go's memory safety: every reference or slice stored in the heap points to allocated memory, or is nil).
+func regionAxiom(key string, v *Term, alloc, arrAlloc *Term) *Term {
 	_, vs, ok := splitArrSort(v.Sort)
 	if !ok {
 		return nil
+	}
+	if vs == SRef && strings.HasPrefix(key, "H$") && alloc != nil {
+		b := Const("r!", SRef)
+		return Forall([]Bind{{"r!", SRef}}, Or(Eq(Sel(v, b), TNull), Sel(alloc, Sel(v, b))))
+	}
+	if key == elemsKey(SRef) && alloc != nil {
+		a, i := Const("a!", SInt), Const("i!", SInt)
+		e := Sel(Sel(v, a), i)
+		return Forall([]Bind{{"a!", SInt}, {"i!", SInt}}, Or(Eq(e, TNull), Sel(alloc, e)))
+	}
+	if vs == SSlice && strings.HasPrefix(key, "H$") && arrAlloc != nil {
+		b := Const("r!", SRef)
+		return Forall([]Bind{{"r!", SRef}}, And(wfSlice(Sel(v, b)), Or(Eq(SArr(Sel(v, b)), IntLit(0)), Sel(arrAlloc, SArr(Sel(v, b))))))
 	}
 	if key == mapLenKey {
 		b := Const("m!", SRef)
@@ -94,7 +109,7 @@ func (x *Xlat) havocRegion(st *State, key string) {
 		}
 	}
 	v := x.ctx.Fresh(key, s)
-	if ax := regionAxiom(key, v); ax != nil {
+	if ax := regionAxiom(key, v, x.get(st, allocKey, ArrSort(SRef, SBool)), x.get(st, arrAllocKey, ArrSort(SInt, SBool))); ax != nil {
 		x.ctx.constAxioms[v.Op] = append(x.ctx.constAxioms[v.Op], ax)
 	}
 	if key == allocKey || key == arrAllocKey {
@@ -656,7 +671,9 @@ func (x *Xlat) copyElems(st *State, dst, src, n *Term, et types.Type) {
 		Eq(Sel(resArr, App("+", SInt, SOff(dst), i)), Sel(srcInner, App("+", SInt, SOff(src), i))))))
 	st.assume(Forall([]Bind{{"i!", SInt}}, Imp(Or(App("<", SBool, i, SOff(dst)), App(">=", SBool, i, App("+", SInt, SOff(dst), n))),
 		Eq(Sel(resArr, i), Sel(oldInner, i)))))
-	x.setElems(st, key, es, h, Sto(h, SArr(dst), resArr), touchedWindow(dst, n))
+	h2 := x.setElems(st, key, es, h, Sto(h, SArr(dst), resArr), touchedWindow(dst, n))
+	lhs := x.atTerm(h2, dst, i, es)
+	st.assume(Forall([]Bind{{"i!", SInt}}, Imp(And(App("<=", SBool, IntLit(0), i), App("<", SBool, i, n)), Eq(lhs, x.atTerm(h, src, i, es))), []*Term{lhs}, []*Term{x.atTerm(h, src, i, es)}))
 }
 
 // ---------------------------------------------------------------------------
@@ -972,6 +989,14 @@ func (x *Xlat) callContract(st *State, fr *Frame, out *Outcomes, fi *FuncInfo, a
 		name := fmt.Sprintf("%s/call.pre.%s.%d#%d", x.curFunc, fi.Key, i+1, x.bump("call."+fi.Key+fmt.Sprint(i)))
 		x.emit(st, name, "call.pre", g, pos, "precondition of "+fi.Key+": "+r.Text)
 		st.assume(g)
+	}
+	// recursion: the callee's measure must be smaller than ours and bounded below
+	if fi == x.fi && spec.Decr != nil && x.entryMeasure != nil {
+		m := env.eval(spec.Decr.Expr).t
+		name := fmt.Sprintf("%s/decreases.call#%d", x.curFunc, x.bump("decr.call"))
+		x.emit(st, name, "decreases", And(App(">=", SBool, m, zeroOf(m.Sort)), App("<", SBool, m, x.entryMeasure)), pos, "recursive call decreases the measure and keeps it bounded below: "+spec.Decr.Text)
+	} else if fi == x.fi && x.fi.Spec != nil {
+		x.note("recursive call of %s without a decreases clause: partial correctness only", fi.Key)
 	}
 	pre := st.clone()
 	// havoc
